@@ -1208,6 +1208,173 @@ func tw1Allowed(info *types.Info, cf *cfgx.Func, fa cfgx.Fact, children *types.V
 	return false
 }
 
+// ---------------------------------------------------------------- R6
+
+// RuleR6: whether a directive's own children are in parentheses does not decide where it
+// goes. In the context resolver (and its family) no error return is reached under a
+// condition that reads HasExplicitContext of the directive being placed (the resolver's
+// *Directive parameter): the flag of the directives on the context chain is a barrier, the
+// flag of the incoming one only says how ITS children were written - a rewriting the surface
+// property quantifies over.
+func RuleR6(c *Ctx) {
+	sc := c.Run.Begin("R6", "in the context resolver no rejection depends on the HasExplicitContext flag of the directive being placed", 1)
+	defer sc.End()
+	resolver, _ := c.resolverFunc()
+	flag := c.Field("directive", "Directive", "HasExplicitContext")
+	dirT := c.Named("directive", "Directive")
+	if resolver == nil || flag == nil || dirT == nil {
+		sc.Undecided("anchors", "-", "unresolved anchor: context resolver / HasExplicitContext")
+		return
+	}
+	n := 0
+	for f := range c.familyOf(resolver) {
+		fd := c.P.Decl(f)
+		if fd == nil {
+			continue
+		}
+		pk := c.P.PkgOfDecl(fd)
+		info := pk.TypesInfo
+		// the directive being placed: a parameter of type *Directive
+		placed := map[types.Object]bool{}
+		for _, fl := range fd.Type.Params.List {
+			for _, nm := range fl.Names {
+				if o := info.ObjectOf(nm); o != nil {
+					if pt, ok := o.Type().(*types.Pointer); ok && types.Identical(pt.Elem(), dirT) {
+						placed[o] = true
+					}
+				}
+			}
+		}
+		if len(placed) == 0 {
+			continue
+		}
+		cf := c.CFG(pk, fd.Body)
+		k := 0
+		inspectNoLit(fd.Body, func(x ast.Node) bool {
+			ret, ok := x.(*ast.ReturnStmt)
+			if !ok || len(ret.Results) == 0 {
+				return true
+			}
+			last := ret.Results[len(ret.Results)-1]
+			if tv, has := info.Types[last]; !has || tv.IsNil() {
+				return true
+			}
+			if _, isCall := ast.Unparen(last).(*ast.CallExpr); !isCall {
+				return true
+			}
+			n++
+			k++
+			key := fmt.Sprintf("%s#%d", c.P.DeclName(fd), k)
+			bad := ""
+			for _, fa := range cf.FactsAt(ret) {
+				ast.Inspect(fa.Expr, func(y ast.Node) bool {
+					if sel, ok := y.(*ast.SelectorExpr); ok && info.ObjectOf(sel.Sel) == types.Object(flag) {
+						if id, ok := ast.Unparen(sel.X).(*ast.Ident); ok && placed[info.ObjectOf(id)] {
+							bad = types.ExprString(fa.Expr)
+						}
+					}
+					return true
+				})
+			}
+			if bad == "" {
+				sc.Holds(key, c.P.Pos(ret.Pos()), "does not depend on the placed directive's own parentheses")
+			} else {
+				sc.Violation(key, c.P.Pos(ret.Pos()), "the rejection is reached under `"+bad+"`, which reads the HasExplicitContext flag of the directive being placed: the same directive with its children written without parentheses is accepted, with them it is refused")
+			}
+			return true
+		})
+	}
+	if n == 0 {
+		sc.Undecided("sites", "-", "no rejection in the context resolver")
+	}
+}
+
+// ---------------------------------------------------------------- R2w
+
+// RuleR2w: who asks about open parentheses asks at every level. A function of core that
+// walks the Parent chain in a loop (the loop assigns `x = x.Parent`) and reads
+// HasExplicitContext reads it inside that loop, for every directive it passes. A walk that
+// climbs first and looks at the flag of the directive it ends on sees one level only: an
+// open `(` on an inner directive whose ancestors are implicit contexts is no longer noticed
+// at the end of input.
+func RuleR2w(c *Ctx) {
+	sc := c.Run.Begin("R2w", "every loop of core that walks the Parent chain in a function that reads HasExplicitContext reads the flag inside the loop", 2)
+	defer sc.End()
+	pk := c.P.Pkg("core")
+	flag := c.Field("directive", "Directive", "HasExplicitContext")
+	parent := c.Field("directive", "Directive", "Parent")
+	if pk == nil || flag == nil || parent == nil {
+		sc.Undecided("anchors", "-", "unresolved anchor: Directive.HasExplicitContext / Parent")
+		return
+	}
+	info := pk.TypesInfo
+	n := 0
+	c.P.Funcs(func(p *pkgT, fd *ast.FuncDecl) {
+		if p != pk {
+			return
+		}
+		readsFlag := func(nd ast.Node) bool {
+			hit := false
+			ast.Inspect(nd, func(y ast.Node) bool {
+				if sel, ok := y.(*ast.SelectorExpr); ok && info.ObjectOf(sel.Sel) == types.Object(flag) {
+					hit = true
+				}
+				// a finder or predicate of core that reads the flag counts too
+				if call, ok := y.(*ast.CallExpr); ok {
+					if gd := c.P.Decl(Callee(info, call)); gd != nil && gd != fd && c.P.PkgOfDecl(gd) == pk {
+						ast.Inspect(gd.Body, func(z ast.Node) bool {
+							if s2, ok := z.(*ast.SelectorExpr); ok && info.ObjectOf(s2.Sel) == types.Object(flag) {
+								hit = true
+							}
+							return !hit
+						})
+					}
+				}
+				return !hit
+			})
+			return hit
+		}
+		if !readsFlag(fd.Body) {
+			return
+		}
+		k := 0
+		ast.Inspect(fd.Body, func(x ast.Node) bool {
+			loop, ok := x.(*ast.ForStmt)
+			if !ok {
+				return true
+			}
+			// does the loop step along Parent?  x = x.Parent  (in the body or the post statement)
+			steps := false
+			ast.Inspect(loop, func(y ast.Node) bool {
+				as, ok := y.(*ast.AssignStmt)
+				if !ok || len(as.Lhs) != 1 || len(as.Rhs) != 1 {
+					return true
+				}
+				sel, ok := ast.Unparen(as.Rhs[0]).(*ast.SelectorExpr)
+				if ok && info.ObjectOf(sel.Sel) == types.Object(parent) && cfgx.SameExpr(info, sel.X, as.Lhs[0]) {
+					steps = true
+				}
+				return true
+			})
+			if !steps {
+				return true
+			}
+			n++
+			k++
+			key := fmt.Sprintf("%s#%d", c.P.DeclName(fd), k)
+			if readsFlag(loop) {
+				sc.Holds(key, c.P.Pos(loop.Pos()), "the flag is read for every directive the walk passes")
+			} else {
+				sc.Violation(key, c.P.Pos(loop.Pos()), "the walk along Parent does not look at HasExplicitContext; the function reads the flag outside the loop, for one directive only: an open parenthesis on any other level of the chain is not seen (end of input with an inner `(` still open is accepted)")
+			}
+			return true
+		})
+	})
+	if n == 0 {
+		sc.Undecided("sites", "-", "no Parent-chain walk in a function that reads HasExplicitContext")
+	}
+}
+
 // ---------------------------------------------------------------- CH1
 
 // RuleCH1: a child is found by what it is, not by where it stands. The children of a
@@ -1233,7 +1400,13 @@ func RuleCH1(c *Ctx) {
 			if !ok {
 				return true
 			}
-			sel, ok := ast.Unparen(ix.X).(*ast.SelectorExpr)
+			base := ast.Unparen(ix.X)
+			if id, isId := base.(*ast.Ident); isId {
+				// a local alias: cc := d.Parent.Children
+				body := innermostBody(fd, ix)
+				base = ast.Unparen(c.CFG(pk, body.body).Resolve(id))
+			}
+			sel, ok := base.(*ast.SelectorExpr)
 			if !ok || info.ObjectOf(sel.Sel) != types.Object(children) {
 				return true
 			}
